@@ -406,6 +406,11 @@ func includeGraphs(c *fw.Ctx, sampled int, emit emitFn) {
 	emit("root-special", &proto.Job{ID: "root-empty-mem", Root: "root.jst", Files: map[string][]byte{"root.jst": {}}, InMemory: true})
 	emit("root-special", &proto.Job{ID: "root-dir", Root: "d", Files: map[string][]byte{"other.jst": []byte("x")}, Dirs: []string{"d"}})
 	emit("root-special", &proto.Job{ID: "root-noname", Root: "", Files: map[string][]byte{"other.jst": []byte("x")}})
+	// root files that exist but are no regular files: the build must end with an error, never wait or read on
+	for _, sp := range [][2]string{{"pipe", "@@FIFO@@"}, {"zero", "@@SYMLINK:/dev/zero@@"}, {"null", "@@SYMLINK:/dev/null@@"}, {"tty", "@@SYMLINK:/dev/tty@@"},
+		{"dangling", "@@SYMLINK:nowhere.jst@@"}, {"selflink", "@@SYMLINK:root.jst@@"}, {"dirlink", "@@SYMLINK:d@@"}, {"link-to-file", "@@SYMLINK:other.jst@@"}} {
+		emit("root-special", &proto.Job{ID: "root-" + sp[0], Root: "root.jst", Files: map[string][]byte{"root.jst": []byte(sp[1]), "other.jst": []byte("JSIGHT 0.3\nGET /x\n  200 any\n")}, Dirs: []string{"d"}})
+	}
 	emit("root-special", &proto.Job{ID: "root-comment-only", Root: "root.jst", Files: map[string][]byte{"root.jst": []byte("# nothing\n")}})
 }
 
